@@ -37,7 +37,7 @@ def state_strategy(tier):
         profiles = [draw(specs.profile_for(cluster, f"pr{i}", feasible=True, max_runtime=6, zero_runtime=draw(st.integers(0, 5)) == 0)) for i in range(n_prof)]
         shape = draw(st.sampled_from([None, None, "fork"]))  # a third of the graphs are forks (a task with several children)
         jobs = draw(specs.job_graphs("G", n_prof, max_jobs=7, conditionals="heavy" if draw(st.booleans()) else True, force=shape))
-        ops = draw(st.lists(st.tuples(st.sampled_from(["release", "schedule", "schedule_ahead", "start", "advance", "advance", "cancel", "cancel_first_child"]),
+        ops = draw(st.lists(st.tuples(st.sampled_from(["release", "schedule", "schedule_ahead", "start", "advance", "advance", "cancel", "cancel_first_child", "run", "run", "plan_join", "finish_next", "finish_next"]),
                                       st.integers(0, 20), st.integers(0, 6)), min_size=1, max_size=25))
         return {"seed": draw(st.integers(0, 1000)), "profiles": profiles, "jobs": jobs, "release_time": draw(st.sampled_from([0, 0, 5])),
                 "ops": [list(o) for o in ops]}
@@ -139,6 +139,10 @@ def exec_state(case):
         ok = query_all()
         for op in case["ops"] if ok else []:
             kind, i, amt = op
+            if kind == "finish_next":
+                kind, amt = "advance", 10 ** 6  # up to the next completion (or the next pending release)
+                if not any(t.state == TaskState.RUNNING for t in tasks):
+                    continue
             if kind == "release":
                 cand = [t for t in pending_release if t.state in (TaskState.VIRTUAL, TaskState.SCHEDULED)]
                 if not cand:
@@ -156,6 +160,30 @@ def exec_state(case):
                 strategy = t.available_execution_strategies[amt % len(t.available_execution_strategies)]
                 when = now + (amt if kind == "schedule_ahead" else 0)
                 t.schedule(T(now), Placement.create_task_placement(task=t, placement_time=T(when), worker_pool_id="wp", execution_strategy=strategy))
+            elif kind == "run":
+                # the whole path of one task in one operation (deep states are rare otherwise): release what is due, place the
+                # i-th runnable task now and start it
+                for t in list(pending_release):
+                    if t.state in (TaskState.VIRTUAL, TaskState.SCHEDULED) and (t.release_time.is_invalid() or simrun.us(t.release_time) <= now):
+                        do_release(t, now)
+                        pending_release.remove(t)
+                cand = [t for t in tasks if t.state == TaskState.RELEASED and parents_done(t)]
+                if not cand:
+                    continue
+                t = cand[i % len(cand)]
+                strategy = t.available_execution_strategies[amt % len(t.available_execution_strategies)]
+                t.schedule(T(now), Placement.create_task_placement(task=t, placement_time=T(now), worker_pool_id="wp", execution_strategy=strategy))
+                t.start(T(now))
+                res.counters["run_ops"] = res.counters.get("run_ops", 0) + 1
+            elif kind == "plan_join":
+                # a planner places a join (several parents) ahead of time, before its parents finish
+                pool = [t for t in tasks if t.state == TaskState.VIRTUAL and len(tg.get_parents(t)) >= 2]
+                if not pool:
+                    continue
+                t = pool[i % len(pool)]
+                strategy = t.available_execution_strategies[amt % len(t.available_execution_strategies)]
+                t.schedule(T(now), Placement.create_task_placement(task=t, placement_time=T(now + 1 + amt), worker_pool_id="wp", execution_strategy=strategy))
+                res.counters["join_planned_ahead"] = res.counters.get("join_planned_ahead", 0) + 1
             elif kind == "start":
                 cand = [t for t in tasks if t.state == TaskState.SCHEDULED and t.is_ready_to_run(tg) and not t.release_time.is_invalid() and simrun.us(t.release_time) <= now
                         and t not in pending_release]
@@ -216,7 +244,7 @@ def exec_state(case):
                     return sum(1 for k in tg.get_children(t) if k.state in (TaskState.VIRTUAL, TaskState.SCHEDULED))
 
                 forks = [t for t in tasks if not t.conditional and live_kids(t) >= 2 and (
-                    t.state == TaskState.RUNNING or (t.state in (TaskState.RELEASED, TaskState.SCHEDULED) and t.is_ready_to_run(tg)
+                    t.state == TaskState.RUNNING or (t.state in (TaskState.RELEASED, TaskState.SCHEDULED) and parents_done(t)
                                                       and not t.release_time.is_invalid() and simrun.us(t.release_time) <= now and t not in pending_release))]
                 if not forks:
                     continue
